@@ -171,7 +171,9 @@ def check_case(ctx, case):
                         if p:
                             return ctx.fail(p[0], f"{what} APID {apid} row {i} variable {name} (dtype {col.dtype}): {p[1]}",
                                             dict(case, only_mode=raw, cell={"kind": p[0], "got": repr(col[i].item() if hasattr(col[i], 'item') else col[i]),
-                                                                            "want": repr(v)}),
+                                                                            "want": repr(v), "dtype": str(col.dtype),
+                                                                            "column_kinds": sorted({type(dict(x)[name]).__mro__[-2].__name__ for x in rs}),
+                                                                            "inferred_dtype": _inferred([dict(x)[name] for x in rs])}),
                                             bucket=p[0] + (":raw" if raw else ":derived"))
         return None
     finally:
@@ -191,6 +193,35 @@ def known_trailing_nul(case, violation):
         return False
     nul = "\x00" if isinstance(want, str) else b"\x00"
     return want != got and want.endswith(nul) and want.rstrip(nul) == got
+
+
+def _inferred(values):
+    """dtype NumPy infers for the plain built-in values of a column"""
+    import numpy as np
+    plain = []
+    for v in values:
+        for base in (bool, int, float, str, bytes):
+            if isinstance(v, base):
+                plain.append(base(v) if type(v).__name__ != "BoolParameter" else int(v))
+                break
+    try:
+        return str(np.asarray(plain).dtype)
+    except Exception:  # noqa: BLE001
+        return "?"
+
+
+def known_big_int_in_float_column(case, violation):
+    """D14f: the dtype of variables with calibrators is left to NumPy's inference; a column that mixes calibrated floats
+    with uncalibrated ints, or ints beyond the int64 range with smaller ones, is inferred as float64 and integers
+    beyond 2**53 are rounded to the nearest double"""
+    if violation["kind"] != "cell-int":
+        return False
+    import ast
+    c = violation["case"].get("cell")
+    if not c or c.get("dtype") != "float64" or c.get("inferred_dtype") != "float64" or "int" not in c.get("column_kinds", []):
+        return False   # only when NumPy's own inference over the plain parsed values of the column gives float64
+    got, want = ast.literal_eval(c["got"]), ast.literal_eval(c["want"])
+    return isinstance(got, float) and isinstance(want, int) and abs(want) > 2 ** 53 and got == float(want)
 
 
 @st.composite
@@ -235,7 +266,7 @@ def part_generated(ctx, examples, poly=False):
 
 PARTS = {"generated": part_generated}
 REPLAY = {"generated": check_case}
-KNOWN = {"trailing_nul_stripped": known_trailing_nul}
+KNOWN = {"trailing_nul_stripped": known_trailing_nul, "big_int_rounded_in_float_column": known_big_int_in_float_column}
 FLOORS = {"nontrivial": ("", 0.1), "polymorphic -> ValueError": ("", 0.01)}
 
 
